@@ -57,3 +57,49 @@ Proof.
   - apply uv_interp_defined_unit; exact H.
   - apply q_interp_defined_unit; exact H.
 Qed.
+
+(* ---- reduction of a restraint with a FIXED centre on a manifold-valued variable to the scalar model: its energy and
+   dU/dk are those of the scalar harmonic restraint (centre 0, same width, not periodic) on the geodesic distance, so the
+   force-constant schedules, the accumulated work of a changing k and the staged TI theorems of the scalar model apply to
+   the history of geodesic distances ---- *)
+Lemma manifold_reduction (k w th : R) : w <> 0 ->
+  let v := mkVar w false 0 0 in
+  harm_potential Rops k v th 0 = harm_potential_d2 Rops k w (th * th) /\
+  harm_dUdk Rops v th 0 = harm_potential_d2 Rops 1 w (th * th) /\
+  harm_potential Rops k v th 0 = k / (2 * w ^ 2) * th ^ 2.
+Proof.
+  intros Hw v. unfold harm_potential, harm_dUdk, harm_potential_d2, dist2, RestraintModel.pdiff, wsq, v, half, nhalf.
+  cbn. repeat split; field; exact Hw.
+Qed.
+
+Lemma manifold_reduction_unit (k w : R) (a b : vec3) : w <> 0 -> is_unit a -> is_unit b ->
+  exists th, 0 <= th <= PI /\ cos th = v3dot Rops a b /\
+    harm_potential_d2 Rops k w (uv_dist2 Rops a b) = harm_potential Rops k (mkVar w false 0 0) th 0 /\
+    harm_potential_d2 Rops 1 w (uv_dist2 Rops a b) = harm_dUdk Rops (mkVar w false 0 0) th 0.
+Proof.
+  intros Hw Ha Hb. pose proof (unit_dot_bound a b Ha Hb) as Hd.
+  exists (acos (v3dot Rops a b)). split; [apply acos_bound|]. split; [apply cos_acos; lra|].
+  destruct (manifold_reduction k w (acos (v3dot Rops a b)) Hw) as [E1 [E2 _]]. cbv zeta in E1, E2.
+  rewrite E1, E2. unfold uv_dist2. rewrite clamp1_id by exact Hd. cbn [nacos nmul Rops]. split; reflexivity.
+Qed.
+
+Lemma manifold_reduction_quat (k w : R) (a b : quat) : w <> 0 -> q_unit a -> q_unit b ->
+  exists om, 0 <= om <= PI / 2 /\ cos om = Rabs (qdot Rops a b) /\
+    harm_potential_d2 Rops k w (q_dist2 Rops PI a b) = harm_potential Rops k (mkVar w false 0 0) om 0 /\
+    harm_potential_d2 Rops 1 w (q_dist2 Rops PI a b) = harm_dUdk Rops (mkVar w false 0 0) om 0.
+Proof.
+  intros Hw Ha Hb.
+  destruct (harm_quaternion k w a b Hw Ha Hb) as [om [H1 [H2 H3]]].
+  destruct (harm_quaternion 1 w a b Hw Ha Hb) as [om' [H1' [H2' H3']]].
+  exists om. split; [exact H1|]. split; [exact H2|].
+  destruct (manifold_reduction k w om Hw) as [_ [E2 E3]]. cbv zeta in E2, E3.
+  split; [rewrite H3, E3; reflexivity|].
+  (* om and om' are the same angle: both in [0, pi/2] with the same cosine *)
+  assert (Hom : om' = om).
+  { assert (Hc : cos om' = cos om) by (rewrite H2, H2'; reflexivity).
+    destruct (Rtotal_order om om') as [Hlt | [He | Hgt]]; [|symmetry; exact He|]; exfalso; pose proof PI_RGT_0.
+    - assert (cos om' < cos om) by (apply cos_decreasing_1; lra). lra.
+    - assert (cos om < cos om') by (apply cos_decreasing_1; lra). lra. }
+  rewrite H3', Hom. destruct (manifold_reduction 1 w om Hw) as [_ [_ E3']]. cbv zeta in E3'.
+  rewrite E2. unfold harm_potential_d2, half, nhalf. cbn [nmul ndiv n1 nofZ Rops]. field. exact Hw.
+Qed.
